@@ -482,6 +482,7 @@ pub fn scen_bounds(m: &Model, setup: &Setup, r: &mut Rng, out: &mut Out) {
         declare_var(&mut solver, &mut vars, d, None, sr.next());
     }
     let n = m.vars.len();
+    out.meta(format!("full-model {}", m.emit()));
     let mut prev: Vec<(i32, i32)> = m.vars.iter().map(|d| (d.lb(), d.ub())).collect();
     // random views observed at every step
     let views: Vec<View> = (0..3)
@@ -529,6 +530,33 @@ pub fn scen_bounds(m: &Model, setup: &Setup, r: &mut Rng, out: &mut Out) {
             let (a, b) = (w.scale as i64 * il + w.offset as i64, w.scale as i64 * iu + w.offset as i64);
             if (lb as i64, ub as i64) != (a.min(b), a.max(b)) {
                 out.push(format!("bad view-bounds-rule view={} reported=[{},{}] expected=[{},{}]", ws.trim(), lb, ub, a.min(b), a.max(b)));
+            }
+        }
+        // Sometimes the solver is used between two postings: a solve which is interrupted after a few
+        // polls (or runs to the end). Afterwards the reported bounds are root bounds again: they still
+        // enclose every solution and have not loosened (a solve may tighten them by learning units).
+        if r.chance(1, 3) {
+            let mut brancher = make_brancher(&setup.bspec, &solver, &vars.ids);
+            let mut term = if r.chance(3, 4) { StopAt::at(1 + r.below(5)) } else { StopAt::never() };
+            let res = solver.satisfy(&mut brancher, &mut term);
+            let what = match res {
+                SatisfactionResult::Satisfiable(_) => "sat",
+                SatisfactionResult::Unsatisfiable => "unsat",
+                SatisfactionResult::Unknown => "unknown",
+            };
+            out.meta(format!("solve between postings step={} stop_at={:?} -> {}", step, term.stop_at, what));
+            if what != "unsat" {
+                for x in 0..n {
+                    let lb = solver.lower_bound(&vars.ids[x]);
+                    let ub = solver.upper_bound(&vars.ids[x]);
+                    out.push(format!("bounds step{}s {} {} {}", step, x, lb, ub));
+                    if lb < prev[x].0 || ub > prev[x].1 {
+                        out.push(format!("bad bounds-not-monotone-after-solve step={} x={} [{},{}] after [{},{}]", step, x, lb, ub, prev[x].0, prev[x].1));
+                    }
+                    prev[x] = (lb, ub);
+                }
+            } else {
+                break;
             }
         }
         if step == m.cons.len() {
@@ -755,6 +783,8 @@ pub enum Op {
     NewVar(VarDecl),
     Post(Cons),
     Satisfy,
+    /// a plain solve which is interrupted at the given poll
+    SatisfyInterrupted(u64),
     Assume(Vec<Atom>, bool),
     Iterate(usize),
     Optimise(OptSpec),
@@ -766,6 +796,7 @@ impl Op {
             Op::NewVar(d) => format!("newvar:{:?}:{}", d.kind, d.values.len()).to_lowercase(),
             Op::Post(c) => format!("post:{}", c.full_kind()),
             Op::Satisfy => "satisfy".into(),
+            Op::SatisfyInterrupted(k) => format!("satisfy-interrupted:{}", k),
             Op::Assume(a, c) => format!("assume:{}:{}", a.len(), *c as u8),
             Op::Iterate(k) => format!("iterate:{}", k),
             Op::Optimise(s) => format!("optimise:{}:{}", if s.lus { "lus" } else { "lsu" }, if s.maximise { "max" } else { "min" }),
@@ -828,6 +859,19 @@ pub fn scen_history(initial: &Model, ops: &[Op], setup: &Setup, out: &mut Out) {
                         infeasible = true;
                     }
                     SatisfactionResult::Unknown => out.push(format!("nonterm op{}", i)),
+                }
+            }
+            Op::SatisfyInterrupted(k) => {
+                let mut t = StopAt::at(*k);
+                match solver.satisfy(&mut brancher, &mut t) {
+                    SatisfactionResult::Satisfiable(sol) => {
+                        let _ = sol_record(out, &format!("op{}", i), sol.as_reference(), &vars);
+                    }
+                    SatisfactionResult::Unsatisfiable => {
+                        out.push(format!("verdict op{} unsat", i));
+                        infeasible = true;
+                    }
+                    SatisfactionResult::Unknown => out.meta(format!("op{} interrupted: unknown", i)),
                 }
             }
             Op::Assume(assumptions, want_core) => {
